@@ -45,7 +45,7 @@ theorem calc_cases {head limit : Nat} {synced : Ranges} {r : Range} (hi : RInv s
     (h : calculateRangeToFetch head synced limit = .ok r) (hne : Range.isEmpty r = false) :
     1 ≤ r.1 ∧ r.1 ≤ r.2 ∧
       (((∀ x, mem synced x → x < r.1) ∧ r.2 ≤ head ∧ (synced = [] ∨ mem synced (r.1 - 1))) ∨
-        mem synced (r.2 + 1)) := by
+        (mem synced (r.2 + 1) ∧ ∀ x, r.2 < x → x ≤ head → mem synced x)) := by
   have hle : r.1 ≤ r.2 := by simpa [Range.isEmpty] using hne
   rcases List.eq_nil_or_concat synced with rfl | ⟨ys, hd, rfl⟩
   · -- nothing synced
@@ -94,7 +94,7 @@ theorem calc_cases {head limit : Nat} {synced : Ranges} {r : Range} (hi : RInv s
         have h3 : (Range.headn (s, hd.1 - 1) limit).2 + 1 = hd.1 := by
           have := hvhd.1; omega
         rw [h3]
-        exact ⟨hd, by simp, Nat.le_refl _, hvhd.2.1⟩
+        refine ⟨⟨hd, by simp, Nat.le_refl _, hvhd.2.1⟩, fun x hx1 hx2 => ⟨hd, by simp, by omega, by omega⟩⟩
 
 /-- what a scheduled request implies (both versions of the code) -/
 theorem request_cases {pc : Bool} {slowMin : Nat} {i : GateIn} {r : Range}
@@ -200,7 +200,7 @@ theorem fetch_request_spec_gen {pc : Bool} {slowMin : Nat} {i : GateIn} {old : N
   intro x hx hbx
   simp only [] at hx ⊢
   have hxs : mem synced x := (hcm x).2 (hx.symm)
-  rcases hshape with ⟨habove, _, _⟩ | hbound
+  rcases hshape with ⟨habove, _, _⟩ | ⟨hbound, _⟩
   · -- the batch lies above everything synced
     have := habove x hxs
     omega
@@ -422,8 +422,128 @@ theorem fetch_total {pc : Bool} {slowMin : Nat} {i : GateIn}
     simp only []
     have hle : nb.2 + 1 ≤ U64_MAX := by
       obtain ⟨_, _, hshape⟩ := calc_cases hci hcalc (by simpa using hne)
-      rcases hshape with ⟨_, h2, _⟩ | hm
+      rcases hshape with ⟨_, h2, _⟩ | ⟨hm, _⟩
       · omega
       · exact (mem_bounds hci hm).2
     simp only [addU64, hle, ↓reduceIte]
     exact ⟨_, rfl⟩
+
+/-! ### progress: while a height up to the head is missing, there is something to fetch -/
+
+theorem range_tailn_nonempty (r : Range) (l : Nat) (hr : r.1 ≤ r.2) (hl : 1 ≤ l) (hu : r.2 ≤ U64_MAX) :
+    Range.isEmpty (Range.tailn r l) = false := by
+  unfold Range.tailn
+  have hc : ¬ Range.isEmpty r = true := by simp [Range.isEmpty]; exact hr
+  rw [if_neg hc]
+  have : checkedSub l 1 = some (l - 1) := by simp [checkedSub]; omega
+  rw [this]
+  have hsa : r.1 ≤ satAdd r.1 (l - 1) := by unfold satAdd; split <;> omega
+  have := Nat.le_min.2 ⟨hr, hsa⟩
+  simpa [Range.isEmpty] using this
+
+theorem range_headn_nonempty (r : Range) (l : Nat) (h1 : 1 ≤ r.1) (hr : r.1 ≤ r.2) (hl : 1 ≤ l)
+    (hu : r.2 ≤ U64_MAX) : Range.isEmpty (Range.headn r l) = false := by
+  unfold Range.headn
+  have hc : ¬ Range.isEmpty r = true := by simp [Range.isEmpty]; exact hr
+  rw [if_neg hc]
+  have : checkedAdd (satSub r.2 l) 1 = some (r.2 - l + 1) := by
+    unfold checkedAdd satSub
+    split
+    · rfl
+    · next h => exact absurd (by omega) h
+  rw [this]
+  have : max r.1 (r.2 - l + 1) ≤ r.2 := Nat.max_le.2 ⟨hr, by omega⟩
+  simpa [Range.isEmpty] using this
+
+/-- if some height `1 ≤ m ≤ head` is not synced, `calculate_range_to_fetch` returns a non-empty range -/
+theorem calc_nonempty {head limit : Nat} {synced : Ranges} (hi : RInv synced) (hl : 1 ≤ limit)
+    (hh : head ≤ U64_MAX) {m : Nat} (hm1 : 1 ≤ m) (hm2 : m ≤ head) (hm3 : ¬ mem synced m) :
+    ∃ r, calculateRangeToFetch head synced limit = .ok r ∧ Range.isEmpty r = false := by
+  rcases List.eq_nil_or_concat synced with rfl | ⟨ys, hd, rfl⟩
+  · exact ⟨_, rfl, range_tailn_nonempty _ _ (by simp only []; omega) hl hh⟩
+  · simp only [List.concat_eq_append] at hi hm3 ⊢
+    have hvhd := inv_validR hi (r := hd) (by simp)
+    simp only [calculateRangeToFetch, List.reverse_append, List.reverse_cons, List.reverse_nil,
+      List.nil_append, List.cons_append]
+    by_cases hlt : hd.2 < head
+    · have : hd.2 + 1 ≤ U64_MAX := by omega
+      simp only [hlt, ↓reduceIte, addU64, this, bind, Except.bind, pure, Except.pure]
+      exact ⟨_, rfl, range_tailn_nonempty _ _ (by simp only []; omega) hl hh⟩
+    · simp only [hlt, ↓reduceIte]
+      have hmlt : m < hd.1 := by
+        by_cases hc : m < hd.1
+        · exact hc
+        · exact absurd ⟨hd, by simp, by omega, by omega⟩ hm3
+      cases hrev : ys.reverse with
+      | nil =>
+        have : (0 : Nat) + 1 ≤ U64_MAX := by decide
+        simp only [addU64, bind, Except.bind, pure, Except.pure, this, ↓reduceIte]
+        exact ⟨_, rfl, range_headn_nonempty _ _ (by simp) (by simp only [satSub]; omega) hl
+          (by simp only [satSub]; have := hvhd.2.2; have := hvhd.2.1; omega)⟩
+      | cons r t =>
+        have hr : r ∈ ys := by
+          have : r ∈ ys.reverse := by rw [hrev]; simp
+          simpa using this
+        have h1 := (inv_append.1 hi).2.2 r hr hd (by simp)
+        have h2 := hvhd.2.2
+        have h3 := hvhd.2.1
+        have : r.2 + 1 ≤ U64_MAX := by omega
+        simp only [addU64, bind, Except.bind, pure, Except.pure, this, ↓reduceIte]
+        exact ⟨_, rfl, range_headn_nonempty _ _ (by simp) (by simp only [satSub]; omega) hl
+          (by simp only [satSub]; omega)⟩
+
+/-- **Progress of the fetch decision.**  Nothing pruned, no batch ongoing, a peer connected, the
+    slow-sync gate not armed, batch size ≥ 1: if some height `1 ≤ m ≤ head` inside the sampling
+    window is not stored, `fetch_next_batch` schedules a request. -/
+theorem gate_progress {pc : Bool} {slowMin : Nat} {i : GateIn} {old : Nat → Bool} {H m : Nat}
+    (hst : RInv i.stored) (hpr : i.pruned = []) (hong : i.ongoing = false)
+    (hpeers : i.connectedPeers ≠ 0) (hhead : i.head = some H) (hH : H < U64_MAX)
+    (hbs : 1 ≤ i.batchSize) (hslow : i.slowSync = none)
+    (hwin : ∀ h, i.inWindow h = !old h)
+    (hmono : ∀ h1 h2, h1 ≤ h2 → old h2 = true → old h1 = true)
+    (hm1 : 1 ≤ m) (hm2 : m ≤ H) (hm3 : ¬ mem i.stored m) (hm4 : old m = false) :
+    ∃ r, fetchDecisionWith pc slowMin i = .ok (.request r) := by
+  obtain ⟨synced, hadd, hci, hcm⟩ := add_spec (a := i.pruned) (by rw [hpr]; exact inv_nil) hst
+  have hsm : ∀ x, mem synced x ↔ mem i.stored x := by
+    intro x; rw [hcm x, hpr]; simp [mem_nil]
+  obtain ⟨r, hcalc, hne⟩ := calc_nonempty (limit := i.batchSize) hci hbs (Nat.le_of_lt hH) hm1 hm2
+    (fun hc => hm3 ((hsm m).1 hc))
+  obtain ⟨_, _, hshape⟩ := calc_cases hci hcalc hne
+  have hle : r.2 + 1 ≤ U64_MAX := by
+    rcases hshape with ⟨_, h2, _⟩ | ⟨hmm, _⟩
+    · omega
+    · exact (mem_bounds hci hmm).2
+  refine ⟨r, ?_⟩
+  unfold fetchDecisionWith
+  rw [if_neg (by simp [hong]), if_neg (by simpa using hpeers)]
+  simp only [hhead, hadd, hcalc, hne, Bool.false_eq_true, ↓reduceIte]
+  have hss : slowSyncStop slowMin i r = .ok false := by simp [slowSyncStop, hslow]
+  simp only [hss, addU64, hle, ↓reduceIte]
+  congr 1
+  unfold windowGate
+  rcases hshape with ⟨habove, _, _⟩ | ⟨hbound, hfill⟩
+  · -- forward: the bound is above everything synced
+    have hnc : contains i.stored (r.2 + 1) = false := by
+      cases hc : contains i.stored (r.2 + 1) with
+      | false => rfl
+      | true =>
+        have := habove _ ((hsm _).2 ((contains_iff_mem _ _).1 hc))
+        omega
+    have hns : contains synced (r.2 + 1) = false := by
+      cases hc : contains synced (r.2 + 1) with
+      | false => rfl
+      | true =>
+        have := habove _ ((contains_iff_mem _ _).1 hc)
+        omega
+    simp [hnc, hns]
+  · -- backward: the bound is stored and inside the window because `m` below it is
+    have hcs : contains i.stored (r.2 + 1) = true := (contains_iff_mem _ _).2 ((hsm _).1 hbound)
+    have hmb : m ≤ r.2 := by
+      by_cases hc : m ≤ r.2
+      · exact hc
+      · exact absurd ((hsm m).1 (hfill m (by omega) hm2)) hm3
+    have hob : old (r.2 + 1) = false := by
+      cases ho : old (r.2 + 1) with
+      | false => rfl
+      | true => have := hmono m (r.2 + 1) (by omega) ho; rw [hm4] at this; cases this
+    simp [hcs, hwin, hob]
